@@ -51,9 +51,36 @@ def build_file2(shape, seed=0, variant=0):
             seg["drop"] = drop
             seg["declare_full"] = True
         out.append(seg)
+    scaled_x = (h // 13) % 4 == 0 and xt in SCALABLE
+    if scaled_x:
+        # x carries a Linear scaling (2 v + 1), y none: what was read from x must not rub off on y
+        import struct
+        for seg in out:
+            ent = [e_ for e_ in seg["listed"] if e_["p"] == X]
+            if ent:
+                ent[0]["props"] = [
+                    ["NI_Scaling_Status", "String", "unscaled"],
+                    ["NI_Number_Of_Scales", "Uint32", (1).to_bytes(4, "little")],
+                    ["NI_Scale[0]_Scale_Type", "String", "Linear"],
+                    ["NI_Scale[0]_Linear_Slope", "DoubleFloat", struct.pack("<d", 2.0)],
+                    ["NI_Scale[0]_Linear_Y_Intercept", "DoubleFloat", struct.pack("<d", 1.0)],
+                    ["NI_Scale[0]_Linear_Input_Source", "Uint32", (0xFFFFFFFF).to_bytes(4, "little")]]
+                break
     if (h // 7) % 2 == 1:
         inherit_encoding(out)
-    return {"segs": out}, {"xtype": xt, "ytype": yt, "be": be, "inherit": (h // 7) % 2 == 1}
+    return {"segs": out}, {"xtype": xt, "ytype": yt, "be": be, "inherit": (h // 7) % 2 == 1, "scaled_x": scaled_x}
+
+
+SCALABLE = {"Int8", "Int16", "Int32", "Uint8", "Uint16", "Uint32", "DoubleFloat"}     # exact in float64
+
+
+def expected_channel_elems(info, nm, ty, values):
+    """what reading these values of channel nm returns: the stored values, or 2 v + 1 as float64 for a scaled x"""
+    if nm == "x" and info.get("scaled_x"):
+        import numpy as np
+        raw = np.frombuffer(b"".join(values), dtype=enc.NPTYPE[ty]) if values else np.zeros(0, dtype=enc.NPTYPE[ty])
+        return proj.elems(raw.astype("<f8") * 2.0 + 1.0)
+    return proj.expected_elems(ty, values)
 
 
 def inherit_encoding(segs):
@@ -71,9 +98,10 @@ def inherit_encoding(segs):
         else:
             state = {}
         listed = []
+        props = {e_["p"]: e_.get("props") for e_ in seg["listed"] if e_.get("props")}
         for c in cur:
             p, has, n, ty = c
-            if ty != "String" and state.get(p) == c:
+            if ty != "String" and state.get(p) == c and p not in props:
                 continue
             if not has:
                 listed.append({"p": p, "kind": "nodata"})
@@ -81,6 +109,8 @@ def inherit_encoding(segs):
                 listed.append({"p": p, "kind": "same"})
             else:
                 listed.append({"p": p, "kind": "full"})
+            if p in props:
+                listed[-1]["props"] = props[p]
         for c in cur:
             if c[1]:
                 last_index[c[0]] = (c[2], c[3])
@@ -164,7 +194,7 @@ def replay_history_case(case):
                                                                                "offset": item[nm]["offset"], "run": run}))
             cat.extend(item[nm]["data"])
             run += item[nm]["len"]
-        if cat != proj.expected_elems(tys[nm], vals[nm]):
+        if cat != expected_channel_elems(info, nm, tys[nm], vals[nm]):
             fails.append(({"kind": "fresh-stream", "stream": "channel", "what": "content"},
                           {"shape": shape, "info": info, "channel": nm, "hex": e.data.hex()}))
     seq = []
@@ -214,7 +244,7 @@ def replay_history_case(case):
                 exp = {"err": o["res"]["err"]}
                 ok = got.get("err") == exp["err"]
             else:
-                exp = {"data": proj.expected_elems(tys[o["ch"]], [vals[o["ch"]][t] for t in o["res"]["vals"]])}
+                exp = {"data": expected_channel_elems(info, o["ch"], tys[o["ch"]], [vals[o["ch"]][t] for t in o["res"]["vals"]])}
                 ok = got.get("data") == exp["data"]
             if not ok:
                 fail(i, o, exp, got)
